@@ -19,7 +19,7 @@ ASSIGN = re.compile(r"^(?P<lhs>[A-Za-z_][A-Za-z0-9_]*) = (?P<rhs>[A-Za-z_][A-Za-
 LSPREQ = re.compile(r'^\[LSPRequest\("(?P<method>[^"]*)", typeof\((?P<resp>[A-Za-z0-9_]+)\)(?:, typeof\((?P<partial>.+)\))?\)\]$')
 LSPRESP = re.compile(r"^\[LSPResponse\(typeof\((?P<req>[A-Za-z0-9_]+)\)\)\]$")
 DIRECTION = re.compile(r"^\[Direction\(MessageDirection\.(?P<dir>[A-Za-z]+)\)\]$")
-METHODCONST = re.compile(r'^public static string (?P<name>[A-Za-z0-9_]+) \{ get; \} = "(?P<method>[^"]*)";$')
+METHODCONST = re.compile(r'^public static string (?P<name>\w+) \{ get; \} = "(?P<method>[^"]*)";$')
 
 
 class CsClass:
@@ -204,6 +204,10 @@ def spec_rows(S):
         a[("request", m, "", "response_class")] = resp
         a[("request", m, "", "response_back_reference")] = req
         a[("request", m, "", "direction")] = upper_camel(r["messageDirection"])
+    # the static LSPMethods class: exactly the method strings of the metamodel (the only place the .NET output states a
+    # notification's method)
+    for msg in list(S.requests) + list(S.notifications):
+        a[("methods", msg["method"], "", "constant")] = True
     for nt in S.notifications:
         cn, _, _ = S.message_names(nt, False)
         m = nt["method"]
@@ -242,6 +246,8 @@ def impl_rows(S, classes):
             b[key] = b.get(key, 0) + 1
     methods = classes.get("LSPMethods")
     consts = set(methods.constants.values()) if methods else set()
+    for mstr in consts:
+        b[("methods", mstr, "", "constant")] = True
 
     def attr(c, rx):
         for x in c.attrs:
